@@ -15,6 +15,9 @@ from collections import Counter
 
 VERIF_DIR = os.path.dirname(os.path.dirname(os.path.abspath(__file__)))
 REPO = os.environ.get("VF_REPO", "/repo")
+# evidence/ and replay/ go here (overridden only by the mutation harness so
+# that runs against scratch mutants never touch the committed evidence)
+OUT_DIR = os.environ.get("VF_OUT", VERIF_DIR)
 
 
 class Violation(Exception):
@@ -160,7 +163,15 @@ def run_case(mod, case, rec, known_keys):
     treated as passing so the search continues."""
     rec.begin(case)
     try:
-        mod.check(case, rec)
+        try:
+            mod.check(case, rec)
+        except Violation:
+            raise
+        except Exception as e:
+            v = library_exception(e)
+            if v is None:
+                raise
+            raise v from e
     except Violation as v:
         key = classify(mod, case, v, known_keys)
         if key is None:
@@ -168,6 +179,23 @@ def run_case(mod, case, rec, known_keys):
         rec.known_hits[key] += 1
     finally:
         rec.end()
+
+
+def library_exception(e):
+    """An exception that escaped from biom code while a check performed an
+    operation that is inside the property's domain means the operation did
+    not do what the property says -> Violation.  An exception with no biom
+    frame in its traceback is a harness bug -> None (re-raised)."""
+    tb = traceback.extract_tb(e.__traceback__)
+    repo = os.path.abspath(REPO) + os.sep
+    frames = [f for f in tb if os.path.abspath(f.filename).startswith(repo)]
+    if not frames:
+        return None
+    f = frames[-1]
+    where = "%s:%s" % (os.path.relpath(f.filename, repo), f.name)
+    return Violation("unexpected-exception:%s@%s" % (type(e).__name__, where),
+                     "%s: %s (at %s line %s: %s)" % (
+                         type(e).__name__, e, where, f.lineno, f.line))
 
 
 def classify(mod, case, v, known_keys):
@@ -205,7 +233,10 @@ def _worker(args):
         try:
             run_case(mod, case, rec, known_keys)
         except Violation as v:
-            state["fail"] = (json.loads(canon(case)), v.sub, v.msg)
+            c = canon(case)
+            if state["fail"] is None or len(c) <= state["size"]:
+                state["fail"] = (json.loads(c), v.sub, v.msg)
+                state["size"] = len(c)
             raise
 
     test = given(strat)(body)
@@ -224,8 +255,10 @@ def _worker(args):
             test()
     except Violation:
         out["fail"] = state["fail"]
-    except BaseException as e:  # harness or unexpected error
-        if state["fail"] is not None and isinstance(e, Violation):
+    except BaseException as e:
+        if state["fail"] is not None:
+            # a real violation was observed; whatever the engine raised
+            # afterwards (e.g. while shrinking) does not un-observe it
             out["fail"] = state["fail"]
         else:
             out["error"] = "".join(traceback.format_exception(
@@ -300,7 +333,7 @@ def run_enumeration(mod, tier, rec, known_keys, procs=16):
 # files
 
 def write_replay(prop, case, sub, msg):
-    d = os.path.join(VERIF_DIR, "replay")
+    d = os.path.join(OUT_DIR, "replay")
     os.makedirs(d, exist_ok=True)
     name = "%s-%s.json" % (prop, case_hash(case))
     with open(os.path.join(d, name), "w", encoding="utf8") as f:
@@ -311,7 +344,7 @@ def write_replay(prop, case, sub, msg):
 
 def write_evidence(prop, tier, seed, level, coverage, assumptions, wall_s,
                    violations):
-    d = os.path.join(VERIF_DIR, "evidence")
+    d = os.path.join(OUT_DIR, "evidence")
     os.makedirs(d, exist_ok=True)
     ev = {"property_id": prop, "tier": tier, "seed": seed, "level": level,
           "coverage": coverage, "assumptions": assumptions,
